@@ -37,5 +37,13 @@ def run():
                   cwd=os.path.join(root, "harness-proto"), timeout=2400, check=True,
                   env={"CARGO_TARGET_DIR": os.path.join(common.BUILD, "target-std"),
                        "RUSTFLAGS": f"--cfg {common.GUARD}"})
+    if os.path.exists(os.path.join(root, "harness-conc")):
+        sys.path.insert(0, root)
+        from checks import conc_diff
+        conc_diff.build(jobs=12)
+    if os.path.exists(os.path.join(root, "harness-codec")):
+        from checks import codec_diff
+        codec_diff.build_harness(False, common.REPO)
+        codec_diff.build_harness(True, common.REPO)
     print("setup ok")
     return 0
